@@ -110,7 +110,7 @@ let blanks_dec s = List.map (fun c -> if c = 's' then byte_tab.(32) else byte_ta
 
 let style_dec (s : string) : style =
   match String.split_on_char '.' s with
-  | [crlf; hsep; lead; sep; sym; tail; post; gap] ->
+  | [crlf; hsep; lead; sep; sym; tail; post; gap] | [crlf; hsep; lead; sep; sym; tail; post; gap; _] ->
       { y_crlf = (crlf = "1"); y_hsep = blanks_dec hsep; y_lead = blanks_dec lead; y_sep = blanks_dec sep;
         y_sym = blanks_dec sym; y_tail = blanks_dec tail; y_post = blanks_dec post; y_gap = nat_of_int (int_of_string gap) }
   | _ -> raise (Bad "bad-style")
@@ -130,6 +130,153 @@ let rec_dec (s : string) : style * src =
          sdesc = (if desc = "-" then None else Some (chars_of_utf8 (unhex desc)));
          scols = cols })
   | _ -> raise (Bad "bad-rec")
+
+(* a record of the general layout (IoPrintG.v): a token `<blanks>^<digits>` carries its own blanks; the blanks in
+   front of count i are (y_lead for i = 0, y_sep otherwise) ++ its own *)
+let grec_dec (s : string) : gsrc =
+  match String.split_on_char '~' s with
+  | [st; id; desc; cols] ->
+      let y = style_dec st in
+      let trail = (match String.split_on_char '.' st with [_; _; _; _; _; _; _; _; "1"] -> true | _ -> false) in
+      let lines = List.map (fun c ->
+          match String.index_opt c ':' with
+          | Some i ->
+              let sym = int_of_string (String.sub c 0 i) in
+              let toks = split ',' (String.sub c (i + 1) (String.length c - i - 1)) in
+              let bt k t =
+                let own, d = match String.index_opt t '^' with
+                  | Some j -> (blanks_dec (String.sub t 0 j), String.sub t (j + 1) (String.length t - j - 1))
+                  | None -> ([], t) in
+                ((if k = 0 then y.y_lead else y.y_sep) @ own, chars_of_utf8 d) in
+              { g_sym = n_of_int sym; g_gap = y.y_sym; g_toks = List.mapi bt toks; g_tail = y.y_tail; g_post = y.y_post }
+          | None -> raise (Bad "bad-col")) (split ';' cols) in
+      { g_id = chars_of_utf8 (unhex id);
+        g_desc = (if desc = "-" then None else Some (chars_of_utf8 (unhex desc)));
+        g_hsep = (if desc = "-" && not trail then [] else y.y_hsep); g_crlf = y.y_crlf; g_lines = lines }
+  | _ -> raise (Bad "bad-rec")
+
+(* ---------- recogniser of the general JASPAR 2016 layout (IoPrintG.v) ----------
+   Untrusted: what it returns is only used after the EXTRACTED printer has re-printed it to exactly the
+   bytes of the file and the extracted wf_jaspar16_g / wf_prefix / wf_suffix accepted it; then the records
+   the round-trip theorem C14io.reader_roundtrip_jaspar16_general promises are record_of (src_of_g r). *)
+exception No_parse of string
+
+let recognise_jaspar16 (data : string) : (n list * gsrc list * n list) =
+  let cps = match utf8_decode (bytes_of_string data) with
+    | Some l -> Array.of_list (List.map int_of_n l) | None -> raise (No_parse "not UTF-8") in
+  let len = Array.length cps in
+  let ns a b = let l = ref [] in for i = b - 1 downto a do l := n_of_int cps.(i) :: !l done; !l in
+  let is_blank c = c = 32 || c = 9 in
+  let is_ws c = c = 32 || (c >= 9 && c <= 13) in
+  let is_digit c = c >= 48 && c <= 57 in
+  (* the prefix is given in BYTES (print_file_g prepends it to the encoded text): only ASCII prefixes are recognised *)
+  let p0 = ref 0 in
+  while !p0 < len && cps.(!p0) <> 62 do incr p0 done;
+  if !p0 = len then raise (No_parse "no record");
+  for i = 0 to !p0 - 1 do if cps.(i) >= 128 then raise (No_parse "non-ASCII prefix") done;
+  let prefix = ns 0 !p0 in
+  let pos = ref !p0 in
+  let span f = let a = !pos in while !pos < len && f cps.(!pos) do incr pos done; (a, !pos) in
+  let eol crlf =
+    if crlf then begin
+      if !pos + 1 < len && cps.(!pos) = 13 && cps.(!pos + 1) = 10 then pos := !pos + 2 else raise (No_parse "CRLF expected")
+    end else begin
+      if !pos < len && cps.(!pos) = 10 then incr pos else raise (No_parse "LF expected")
+    end in
+  let recs = ref [] in
+  let fin = ref false in
+  while not !fin && !pos < len && cps.(!pos) = 62 do
+    incr pos;
+    let (a, b) = span (fun c -> not (is_ws c)) in
+    let id = ns a b in
+    let (h0, h1) = span is_blank in
+    let (d0, d1) = span (fun c -> c <> 10) in
+    (* the description runs up to the line ending; "\r\n" ends a CRLF record *)
+    let crlf = d1 > d0 && cps.(d1 - 1) = 13 || (d1 = d0 && h1 > h0 && false) in
+    let crlf = crlf || (d1 = d0 && h1 = h0 && false) in
+    let d1' = if crlf then d1 - 1 else d1 in
+    let desc, hsep =
+      if d1' > d0 then (Some (ns d0 d1'), ns h0 h1)
+      else (None, ns h0 h1) (* trailing blanks after an identifier without description *) in
+    pos := d1'; eol crlf;
+    let lines = ref [] in
+    while !pos < len && cps.(!pos) <> 62 && not (is_ws cps.(!pos)) do
+      let sym = cps.(!pos) in incr pos;
+      let (g0, g1) = span is_blank in
+      if !pos >= len || cps.(!pos) <> 91 then raise (No_parse "'[' expected");
+      incr pos;
+      let toks = ref [] in
+      let go = ref true in
+      let tail = ref [] in
+      while !go do
+        let (b0, b1) = span is_blank in
+        let (t0, t1) = span is_digit in
+        if t1 > t0 then toks := (ns b0 b1, ns t0 t1) :: !toks
+        else begin tail := ns b0 b1; go := false end
+      done;
+      if !pos >= len || cps.(!pos) <> 93 then raise (No_parse "']' expected");
+      incr pos;
+      let (q0, q1) = span is_blank in
+      eol crlf;
+      lines := { g_sym = n_of_int sym; g_gap = ns g0 g1; g_toks = List.rev !toks; g_tail = !tail; g_post = ns q0 q1 } :: !lines
+    done;
+    recs := { g_id = id; g_desc = desc; g_hsep = hsep; g_crlf = crlf; g_lines = List.rev !lines } :: !recs;
+    if !pos < len && cps.(!pos) <> 62 then fin := true
+  done;
+  for i = !pos to len - 1 do if cps.(i) >= 128 then raise (No_parse "non-ASCII suffix") done;
+  (prefix, List.rev !recs, ns !pos len)
+
+(* recogniser of UniPROBE files as print_file print_uniprobe prefix rs suffix (IoPrint.v): name line, lines
+   `S:` TAB token TAB token .., then y_gap empty lines; untrusted in the same sense as recognise_jaspar16 *)
+let recognise_uniprobe (data : string) : (n list * (style * src) list * n list) =
+  let cps = match utf8_decode (bytes_of_string data) with
+    | Some l -> Array.of_list (List.map int_of_n l) | None -> raise (No_parse "not UTF-8") in
+  let len = Array.length cps in
+  let ns a b = let l = ref [] in for i = b - 1 downto a do l := n_of_int cps.(i) :: !l done; !l in
+  let pos = ref 0 in
+  (* one line: (start, end of content, crlf, next position); None at end of input or without line ending *)
+  let line_at p =
+    let e = ref p in
+    while !e < len && cps.(!e) <> 10 do incr e done;
+    if !e >= len then None
+    else if !e > p && cps.(!e - 1) = 13 then Some (p, !e - 1, true, !e + 1) else Some (p, !e, false, !e + 1) in
+  let is_col a b = b - a >= 2 && cps.(a + 1) = 58 && (b - a = 2 || cps.(a + 2) = 9) in
+  let recs = ref [] in
+  let go = ref true in
+  while !go do
+    match line_at !pos with
+    | Some (a, b, crlf, nx) when b > a && not (is_col a b) ->
+        let id = ns a b in
+        pos := nx;
+        let cols = ref [] in
+        let more = ref true in
+        while !more do
+          match line_at !pos with
+          | Some (a, b, c2, nx) when c2 = crlf && is_col a b ->
+              let toks = ref [] and p = ref (a + 2) in
+              while !p < b do
+                if cps.(!p) <> 9 then raise (No_parse "TAB expected");
+                let q = ref (!p + 1) in
+                while !q < b && cps.(!q) <> 9 do incr q done;
+                toks := ns (!p + 1) !q :: !toks; p := !q
+              done;
+              cols := (n_of_int cps.(a), List.rev !toks) :: !cols; pos := nx
+          | _ -> more := false
+        done;
+        let gap = ref 0 in
+        let more = ref true in
+        while !more do
+          match line_at !pos with
+          | Some (a, b, c2, nx) when c2 = crlf && a = b -> incr gap; pos := nx
+          | _ -> more := false
+        done;
+        let y = { y_crlf = crlf; y_hsep = [n_of_int 32]; y_lead = []; y_sep = [n_of_int 32]; y_sym = [n_of_int 32];
+                  y_tail = []; y_post = []; y_gap = nat_of_int !gap } in
+        recs := (y, { sid = id; sdesc = None; scols = List.rev !cols }) :: !recs
+    | _ -> go := false
+  done;
+  for i = !pos to len - 1 do if cps.(i) >= 128 then raise (No_parse "non-ASCII suffix") done;
+  ([], List.rev !recs, ns !pos len)
 
 (* ---------- observed outcomes ---------- *)
 let parse_outcome (cell : string -> 'c) (k : int) (s : string) : 'c outcome =
@@ -192,11 +339,25 @@ let run_case (type c) ~(fmt : string) ~(mode : string) ~(get : string -> string 
   let verdict = ref "OK" in
   let set v = if !verdict = "OK" then verdict := v in
   (* the file *)
-  let recs = match get "recs" with Some r -> Some (List.map rec_dec (split '/' r)) | None -> None in
+  (* generated records whose counts carry their own blanks (`^` in a token): the general layout of IoPrintG.v,
+     theorems reader_roundtrip_jaspar_general / _jaspar16_general *)
+  let general = fmt <> "uniprobe" && get "layout" = Some "g" in
+  let grecs = if general then (match get "recs" with Some r -> Some (List.map grec_dec (split '/' r)) | None -> None) else None in
+  let recs = if general then None else match get "recs" with Some r -> Some (List.map rec_dec (split '/' r)) | None -> None in
   let data =
     match get "hex", get "file", recs with
     | Some h, _, _ -> unhex h
     | None, Some p, _ -> read_file p
+    | None, None, None when grecs <> None ->
+        let grs = (match grecs with Some l -> l | None -> []) in
+        let pre = bytes_of_string (unhex (Option.value (get "pre") ~default:"")) in
+        let suf = bytes_of_string (unhex (Option.value (get "suf") ~default:"")) in
+        (if mode = "c14" then begin
+           let ok = if fmt = "jaspar" then List.for_all wf_jaspar_g grs else List.for_all (wf_jaspar16_g alphabet) grs in
+           if not (ok && wf_prefix pre && wf_suffix suf) then set "DIFF generator-output-not-wf (general layout)"
+         end);
+
+        string_of_bytes (print_file_g (if fmt = "jaspar" then print_jaspar_g else print_jaspar16_g) pre grs suf)
     | None, None, Some rs ->
         let pr = (match fmt with "jaspar" -> print_jaspar | "jaspar16" -> print_jaspar16 | _ -> print_uniprobe) in
         let pre = bytes_of_string (unhex (Option.value (get "pre") ~default:"")) in
@@ -225,9 +386,35 @@ let run_case (type c) ~(fmt : string) ~(mode : string) ~(get : string -> string 
       let p = List.map (parse_outcome cell k) (split ';' g) in
       if !parsed_first = None then parsed_first := Some p; p
     end in
-  let expected = match recs, mode with
-    | Some rs, "c14" -> Some (List.map (fun (_, r) -> record_of alphabet zero value r) rs)
+  let expected = match recs, grecs, mode with
+    | Some rs, _, "c14" -> Some (List.map (fun (_, r) -> record_of alphabet zero value r) rs)
+    | None, Some grs, "c14" -> Some (List.map (fun r -> record_of alphabet zero value (src_of_g r)) grs)
     | _ -> None in
+  (* bundled JASPAR 2016 files: recognise the file as print_file_g print_jaspar16_g prefix rs suffix (checked with the
+     extracted printer and well-formedness predicates); not recognised = the file is outside the round-trip theorem *)
+  let bundled_expected = ref None in
+  (if mode = "c14" && fmt = "jaspar16" && recs = None && grecs = None && get "file" <> None then begin
+     match (try `Rec (recognise_jaspar16 data) with No_parse why -> `Bad why) with
+     | `Bad why -> set ("DIFF bundled-file-not-recognised-as-general-layout: " ^ why)
+     | `Rec (pre, rs, suf) ->
+         if string_of_bytes (print_file_g print_jaspar16_g pre rs suf) <> data then
+           set "DIFF bundled-file-recogniser-does-not-reprint-the-file"
+         else if not (List.for_all (wf_jaspar16_g alphabet) rs && wf_prefix pre && wf_suffix suf && rs <> []) then
+           set "DIFF bundled-file-not-wf-for-the-general-round-trip-theorem"
+         else bundled_expected := Some (List.map (fun r -> record_of alphabet zero value (src_of_g r)) rs)
+   end);
+  (* bundled UniPROBE files: the same with print_uniprobe / wf_uniprobe (reader_roundtrip_uniprobe); a file that is not an
+     instance (e.g. last line without final newline) falls back to the checks below and says so *)
+  (if mode = "c14" && fmt = "uniprobe" && recs = None && get "file" <> None then begin
+     match (try `Rec (recognise_uniprobe data) with No_parse why -> `Bad why) with
+     | `Bad _ -> ()
+     | `Rec (pre, rs, suf) ->
+         if string_of_bytes (print_file print_uniprobe pre rs suf) = data && rs <> [] && wf_extra rs pre suf && wf_suffix suf then
+           bundled_expected := Some (List.map (fun (_, r) -> record_of alphabet zero value r) rs)
+   end);
+  (if mode = "c14" && recs = None && grecs = None && get "file" <> None && !bundled_expected = None && !verdict = "OK" then
+     prerr_endline ("io driver: bundled file outside the round-trip theorems (not an instance of the printers): "
+                    ^ Option.value (get "file") ~default:"?"));
   List.iteri (fun gi (g, spec) ->
       if !verdict = "OK" || (String.length !verdict > 4 && String.sub !verdict 0 4 = "DIFF") then begin
         let obs = parse_group g in
@@ -240,6 +427,19 @@ let run_case (type c) ~(fmt : string) ~(mode : string) ~(get : string -> string 
                   if not (check_c14 ceqb ex stop) then
                     set (Printf.sprintf "PROPFAIL chunking=%s records-differ-from-written %s" spec
                            (first_diff ceqb stop (List.map (fun r -> Ok (Some r)) ex @ [Ok None])))
+              | None when !bundled_expected <> None ->
+                  (* bundled file recognised as an instance of the general printer: exactly the records of
+                     reader_roundtrip_jaspar16_general, decided by the extracted check_c14 *)
+                  (match !bundled_expected with
+                   | Some ex ->
+                       if not (check_c14 ceqb ex stop) then
+                         set (Printf.sprintf "PROPFAIL chunking=%s records-differ-from-written %s" spec
+                                (first_diff ceqb stop (List.map (fun r -> Ok (Some r)) ex @ [Ok None])))
+                       else (match get "expect" with
+                           | Some n -> if List.length ex <> int_of_string n then
+                                 set (Printf.sprintf "DIFF record-count-of-bundled-file %d expected %s" (List.length ex) n)
+                           | None -> ())
+                   | None -> ())
               | None ->
                   (* bundled file: records then END, same under every chunking, expected count *)
                   if not (check_c15 stop) || (match List.rev stop with Ok None :: _ -> false | _ -> true) then
